@@ -6,7 +6,7 @@ import gen_gin as G
 
 ID = 'C18'
 DOMAIN = 'sched'
-PROPS_FILES = ['Gin/Props/C18.lean']
+PROPS_FILES = ['Gin/Props/C18.lean', 'Gin/Props/C18b.lean']
 ANCHOR_FILES = ['config.py']
 RULE = ('2-4 real threads, each with a program of 2-5 actions from {use singleton key k (first or repeated use; one key\'s constructor returns None), call a '
         'configurable under a scope (updating the operative record), read operative_config_str()}; the singleton table, the '
